@@ -71,6 +71,20 @@ def fam_in():
     return Family("value-in", "call", lambda i: {"type": "value", "key": f"j{i}", "op": "in", "value": ["a", "b"]}, lambda res, i, t: res.__setitem__(f"j{i}", "a" if t else "z"))
 
 
+IN_SPECIAL = [["a)b", "zz"], ["x(y", "q"], ['say "hi', "w"], ["a || b", "c"], ["p ? q : r", "s"], ["it's", "t"], ["[", "]"], ["back\\", "u"]]
+
+
+def fam_in_special():
+    """value-in whose list members (emitted with another quoting routine than scalar values) contain brackets, quotes or operators."""
+    return Family("value-in-special", "call", lambda i: {"type": "value", "key": f"js{i}", "op": "in", "value": IN_SPECIAL[i % len(IN_SPECIAL)]},
+                  lambda res, i, t: res.__setitem__(f"js{i}", IN_SPECIAL[i % len(IN_SPECIAL)][0] if t else "none-of-them"))
+
+
+def fam_ni_special():
+    return Family("value-ni-special", "not", lambda i: {"type": "value", "key": f"ms{i}", "op": "ni", "value": IN_SPECIAL[(i + 3) % len(IN_SPECIAL)]},
+                  lambda res, i, t: res.__setitem__(f"ms{i}", "none-of-them" if t else IN_SPECIAL[(i + 3) % len(IN_SPECIAL)][0]))
+
+
 def fam_marked():
     def build(i):
         f = {"type": "marked-for-op", "op": "stop", "tag": f"mk{i}"}
@@ -101,7 +115,7 @@ def fam_used():
     return Family("used-ebs", "in", lambda i: {"type": "used"}, lambda res, i, t: res.__setitem__("SnapshotId", "snap-1" if t else "snap-9"), stub=True, shared=True)
 
 
-FAMILIES = [fam_eq(), fam_eq_special(), fam_notbool(), fam_ni(), fam_in(), fam_marked(), fam_offhour(), fam_ne(), fam_tagcount(), fam_flow(), fam_health(), fam_used()]
+FAMILIES = [fam_eq(), fam_eq_special(), fam_notbool(), fam_ni(), fam_in(), fam_in_special(), fam_ni_special(), fam_marked(), fam_offhour(), fam_ne(), fam_tagcount(), fam_flow(), fam_health(), fam_used()]
 PLAIN = [f for f in FAMILIES if not f.stub]
 OFFHOUR = next(f for f in FAMILIES if f.name == "offhour-opt-out")
 SPECIAL = next(f for f in FAMILIES if f.name == "value-eq-special")
